@@ -34,6 +34,14 @@ Trusted reading of CPython (what the interpreter *means*):
   is never reached because its own lock is set (the `Any` partner of former
   finding F85 is outside the model).
 * `del locked[name]` on an absent key is a `KeyError`.
+* **List identity** (`updated = {id(changed_list)}`, `id(partner_list) in updated`,
+  `updated.add(id(partner_list))`, fix 78fd598): the model has no list objects,
+  only the lists traits hold.  Inside the model every trait holds a list object
+  of its own (a `List` trait copies what it is assigned; a partner that is not a
+  `List` trait and shares a list object — `Any` — is outside the model and runs on
+  the implementation only, `#sy` cases), so the identity of "the list object held
+  by trait `q`" is `q` itself: `updated` is a list of traits, initialised to
+  `[self.name]`; the test is membership of the partner trait.
 -/
 import TraitsVerif.Model.Sync
 namespace TraitsVerif.Model.PyLSync
@@ -45,6 +53,10 @@ structure KWorld (α : Type) where
   dead : List Nat := []
   busy : List Nat := []
   swallowed : Nat := 0
+  /-- the traits on which `_sync_trait_modified` is registered (`sync_trait` adds and
+  removes it; a stale registration is harmless: the handler returns at once when
+  the trait has no table, so the propagation does not consult this field) -/
+  hookedM : List Pair := []
 
 /-- What is done to a trait: `setattr` or a list method. -/
 inductive Req (α : Type) where
@@ -76,6 +88,8 @@ inductive Cond where
   | indexIsSlice
   /-- `getattr(object(), object_name) is getattr(self, name)` -/
   | sameListObject
+  /-- `id(getattr(object(), object_name)) in updated` -/
+  | partnerListUpdated
   /-- truth value of `event.added` -/
   | eventAdded
   /-- `index.step is None` -/
@@ -98,6 +112,10 @@ inductive Act where
   | partnerSetSlice
   /-- `del getattr(object(), object_name)[index]` -/
   | partnerDelSlice
+  /-- `updated = {id(getattr(self, name))}` -/
+  | initUpdated
+  /-- `updated.add(id(getattr(object(), object_name)))` -/
+  | markUpdated
   deriving DecidableEq, Repr
 
 inductive Stmt where
@@ -125,6 +143,9 @@ inductive Sig where
 structure St (α : Type) where
   k : KWorld α
   idx : Idx
+  /-- the local `updated`: the list objects that hold the change already, each
+  named by the trait that holds it (see the header) -/
+  upd : List Pair := []
 
 variable {α : Type}
 
@@ -152,6 +173,10 @@ def evalCond (p : Pair) (pay : Payload α) (cur : Option Pair) (s : St α) : Con
     | some q => .ok (decide (q.1 ∈ s.k.dead))
   | .indexIsSlice => .ok (match s.idx with | .slice _ => true | .int _ => false)
   | .sameListObject => .ok false
+  | .partnerListUpdated =>
+    match cur with
+    | none => .error .other
+    | some q => .ok (decide (q ∈ s.upd))
   | .eventAdded =>
     match pay with
     | .event e => .ok (!e.added.isEmpty)
@@ -203,6 +228,11 @@ def doAct (rec : Rec α) (p : Pair) (pay : Payload α) (cur : Option Pair) (s : 
     match cur, s.idx with
     | some q, .slice sl => callRec rec q (.mutate (.delSlice sl)) s
     | _, _ => (s, .exc .typeError)
+  | .initUpdated => ({ s with upd := [p] }, .norm)
+  | .markUpdated =>
+    match cur with
+    | some q => ({ s with upd := q :: s.upd }, .norm)
+    | none => (s, .exc .other)
 
 /-- Live iteration over `info[name].values()` (see the header). -/
 def liveLoop (body : St α → Pair → St α × Sig) (p : Pair) (n0 : Nat) : Nat → Nat → St α → St α × Sig
